@@ -27,6 +27,7 @@ class Run:
     replay: object = None  # callable(failure) -> (bool, detail)
     need_tags: tuple = ()  # reachability twins: each tag must be hit by >= 1 path
     bound: str = ""
+    fallback_obligations: tuple = ()  # extra obligation names tried by the concrete fall-back (see run_property)
 
 
 @dataclass
@@ -116,6 +117,33 @@ def run_property(prop, tier, runs, *, level="other", explanation="", assumptions
             first = next((e for e in agg.errors if e), None)
             out.inconclusive.append(f"{run.name}: {len(agg.errors)} path(s) unsupported/error; first: "
                                     f"{first['err'] if first else ''}")
+            # Concrete fall-back: a path that left the modelled API cannot be decided symbolically, but the solver's
+            # model of its path condition is a concrete input - run it on the real stack against every obligation of
+            # this run.  Reproduced => VIOLATION (it IS a failing run of the real code); otherwise still inconclusive.
+            # (only obligations whose replay oracle is SELF-CONTAINED - judges any input of the harness, not just
+            # a model of the failing obligation - are opted in per run)
+            names = sorted(set(run.fallback_obligations))
+            open_known = {k.get("obligation") for k in known} | {o for k in known for o in k.get("obligations", ())}
+            done = set()
+            for e in agg.errors:
+                if not e or not e.get("instance") or run.replay is None:
+                    continue
+                for ob in names:
+                    if ob in done or ob in open_known or None in open_known:
+                        continue
+                    f = dict(obligation=ob, known=None, inputs=e["instance"], tags=["concrete_fallback"])
+                    try:
+                        with warnings.catch_warnings():
+                            warnings.simplefilter("ignore")
+                            ok, detail = run.replay(f)
+                    except Exception:
+                        continue
+                    if ok:
+                        done.add(ob)
+                        out.violations.append(dict(property=prop, obligation=ob, run=run.name, inputs=f["inputs"],
+                                                   detail="[path left the modelled API; concrete instance of its path "
+                                                          "condition run on the real stack] " + str(detail),
+                                                   tags=f["tags"]))
         if not info["exhaustive"] and not agg.errors:
             out.inconclusive.append(f"{run.name}: exploration not exhaustive ({info.get('truncated')})")
         for t in run.need_tags:
